@@ -293,6 +293,74 @@ func (h *histRun) checkBoundary() {
 type tokenSet struct {
 	T     int64
 	Token string
+	TID   string
+}
+
+type tokenReset struct {
+	T       int64
+	TIDs    []string
+	Subject string
+}
+
+// checkTokenResets: a token reset reaches exactly the connections whose
+// current token id is listed. A connection is judged only if its token id did
+// not change between the last quiescent point before the reset and the first
+// one after it.
+func (h *histRun) checkTokenResets() {
+	reqs := h.g.Bus.Reqs()
+	for _, tr := range h.tokenResets {
+		var q0, q1 int64
+		for _, q := range h.qpoints {
+			if q < tr.T {
+				q0 = q
+			}
+			if q > tr.T && q1 == 0 {
+				q1 = q
+			}
+		}
+		if q1 == 0 {
+			continue
+		}
+		listed := map[string]bool{}
+		for _, t := range tr.TIDs {
+			listed[t] = true
+		}
+		for _, c := range h.g.clientsSnapshot() {
+			if c.CID == "" {
+				continue
+			}
+			if ct, closed := h.closedAt[c.Idx]; closed && ct < q1 {
+				continue
+			}
+			tid := ""
+			stable := true
+			for _, s := range h.tokens[c.Idx] {
+				if s.T <= q0 {
+					tid = s.TID
+				} else if s.T < q1 {
+					stable = false
+				}
+			}
+			if !stable {
+				continue
+			}
+			n := 0
+			for _, r := range reqs {
+				if r.Subject == tr.Subject && r.CID == c.CID {
+					n++
+				}
+			}
+			h.stat("c10_tokenreset_pairs", 1)
+			want := 0
+			if tid != "" && listed[tid] {
+				want = 1
+			}
+			if n != want {
+				h.viol(Viol{Prop: "C10", Conn: c.Idx, T: tr.T, RID: tr.Subject, Sig: "tokenResetFanout",
+					Msg: fmt.Sprintf("token reset for tids %v sent %d auth requests for connection %d whose token id is %q (want %d)", tr.TIDs, n, c.Idx, tid, want)})
+			}
+		}
+	}
 }
 
 // checkToken verifies that a request carries a token admissible for its
